@@ -18,18 +18,24 @@ Obligations (every `theorem` directly in `namespace DendroModel.C03` of this fil
   node carries a taxon (explicit hypothesis `InnerUntaxed`; false without it), no taxon-bearing leaf appears except on
   nodes the operation created.
 * `shuffle_keeps_leaf_taxa` — shuffle_taxa permutes the leaf taxa (`drawTaxa` is a permutation).
+* `addChild_subtree_repr` — heap layer: `add_child` of a detached, separately represented SUBTREE (re-attachment).
 * `addChild_repr`, `insertChild_repr`, `addChild_refines` — heap layer: `add_child` / `insert_child` of a NEW childless
   node refine the tree-level attachment (end to end from `ofTree`).
 * `suppress_keeps_leaf_taxa` — unifurcation suppression keeps the left-to-right list of leaf taxa.
 * `ofTree_repr`, `removeChild_repr`, `removeChild_frame`, `removeChild_refines` — heap layer: the pointer-level
   `remove_child` refines the tree-level operation (result represented, removed node parentless, frame property).
-* `polytomize_fixpoint`, `dropLeavesFix_fixpoint` — the fuel of two bounded loops suffices.
+* `polytomize_fixpoint`, `dropLeavesFix_fixpoint`, `filterLoop_fixpoint`, `pruneUp_fuel_suffices` — the fuel of the
+  bounded loops suffices.
+* `reseedChain_refines` (+ `reseedAt_refines_partial`) — heap layer: the edge-inversion chain of `reseed_at`, as written
+  (walk up the parent pointers, `Edge.invert` from the seed downwards, clear the new seed's parent), represents the
+  tree-level re-seeding before clean-up.
 
 NOT proved here (the definitions exist, are executable and are compared with the code on every run, but carry no
 theorem): heap refinement of the `suppress_unifurcations` branch of `remove_child`, the `parent_node` setter,
-`Edge.collapse`, `Edge.invert`, the inversion chain of `reseed_at`, and of `add_child` / `insert_child` of a node that
+`Edge.collapse`, `Edge.invert` away from the seed (grandparent branch), the pointer-level clean-up after the inversion
+chain, and of `add_child` / `insert_child` of a node that
 already is a child or is a re-attached subtree (`addChild_repr` / `insertChild_repr` / `addChild_refines` cover a NEW
-childless node only); fuel sufficiency of the `filter_leaf_nodes` loop and of `pruneUp`; the error clause (no partially
+childless node only); the error clause (no partially
 mutated state exists in the model); clause (c) (masks are outside this model — decided by the oracle).
 Helper lemmas are in `DendroModel.C03.Aux` / `.HeapAux` / `.Leaves`. -/
 namespace DendroModel.C03.Aux
@@ -2665,8 +2671,457 @@ end
 end DendroModel.C03.AuxP
 
 
+namespace DendroModel.C03.AuxR
+open DendroModel DendroModel.C03 DendroModel.C03.Aux DendroModel.C03.HeapAux
+
+theorem idsL_append : ∀ a b : List T, idsL (a ++ b) = idsL a ++ idsL b
+  | [], b => by simp [idsL]
+  | x :: xs, b => by simp [idsL, idsL_append xs b]
+
+theorem reprL_split (h : Heap) (q : Option Nat) : ∀ a b : List T, ReprL h q (a ++ b) → ReprL h q a ∧ ReprL h q b
+  | [], b, hr => ⟨by simp [ReprL], hr⟩
+  | x :: xs, b, hr => by
+      simp only [List.cons_append, ReprL] at hr
+      have := reprL_split h q xs b hr.2
+      simp only [ReprL]
+      exact ⟨⟨hr.1, this.1⟩, this.2⟩
+
+theorem map_id_mem_idsL : ∀ (cs : List T) (j : Nat), j ∈ cs.map T.id → j ∈ idsL cs := map_id_sub_idsL
+
+/-- the heap after `Edge.invert` on the edge from the parentless node `i` down to its child `j` -/
+def rotHeap (h : Heap) (i j : Nat) : Heap :=
+  { par := fun y => if y = i then some j else if y = j then none else h.par y
+    ch := fun y => if y = j then h.ch j ++ [i] else if y = i then (h.ch i).erase j else h.ch y }
+
+theorem edgeInvert_root (h : Heap) (i j : Nat) (hij : i ≠ j) (hpj : h.par j = some i) (hpi : h.par i = none)
+    (hmem : j ∈ h.ch i) (hni : i ∉ h.ch j) : Heap.edgeInvert h j = some (rotHeap h i j) := by
+  have hc : (h.ch i).contains j = true := by simpa using hmem
+  simp only [Heap.edgeInvert, hpj, hpi, Heap.removeChild, hc, if_true]
+  have hji : j ≠ i := fun e => hij e.symm
+  congr 1
+  simp only [Heap.addChild, Heap.setPar, Heap.setCh, rotHeap]
+  have hc2 : (if j = i then (h.ch i).erase j else h.ch j) = h.ch j := by simp [hji]
+  simp only [hji, if_false, if_true]
+  have : (h.ch j).contains i = false := by simpa using hni
+  simp only [this]
+  congr 1
+
+
+theorem erase_mid (a b : List Nat) (j : Nat) (h : j ∉ a) : (a ++ j :: b).erase j = a ++ b := by
+  rw [List.erase_append_right _ h]; simp
+
+/-- one `Edge.invert` at the root: the child `c` becomes the root and the old root, minus `c`, its last child -/
+theorem rot (h : Heap) (i : Nat) (x : Option Nat) (l : Option Frac) (s : Option String) (pre post : List T) (c : T)
+    (hr : Repr h none (.node i x l s (pre ++ c :: post)))
+    (hnd : (ids (.node i x l s (pre ++ c :: post))).Nodup) (l1 l2 : Option Frac) :
+    Heap.edgeInvert h c.id = some (rotHeap h i c.id) ∧
+    Repr (rotHeap h i c.id) none (.node c.id c.taxon l1 c.label (c.cs ++ [.node i x l2 s (pre ++ post)])) := by
+  cases c with
+  | node j xj lj sj ds =>
+  simp only [T.id, T.taxon, T.label, T.cs]
+  simp only [Repr] at hr
+  obtain ⟨hpi, hchi, hrl⟩ := hr
+  have hsp := reprL_split h (some i) pre (.node j xj lj sj ds :: post) hrl
+  have hrc : Repr h (some i) (.node j xj lj sj ds) := by have := hsp.2; simp only [ReprL] at this; exact this.1
+  have hrpost : ReprL h (some i) post := by have := hsp.2; simp only [ReprL] at this; exact this.2
+  simp only [Repr] at hrc
+  obtain ⟨hpj, hchj, hrds⟩ := hrc
+  -- distinctness facts
+  simp only [ids, idsL_append, idsL] at hnd
+  have hnd2 := (List.nodup_cons.mp hnd).2
+  have hi_all := (List.nodup_cons.mp hnd).1
+  have hi_pre : i ∉ idsL pre := fun hm => hi_all (by simp [hm])
+  have hi_j : i ≠ j := fun e => hi_all (by simp [e])
+  have hi_ds : i ∉ idsL ds := fun hm => hi_all (by simp [hm])
+  have hi_post : i ∉ idsL post := fun hm => hi_all (by simp [hm])
+  have hnd_pre := (List.nodup_append.mp hnd2).1
+  have hnd_rest := (List.nodup_append.mp hnd2).2.1
+  have hdis1 : ∀ a ∈ idsL pre, ∀ b ∈ (j :: idsL ds) ++ idsL post, a ≠ b := (List.nodup_append.mp hnd2).2.2
+  have hnd_c := (List.nodup_append.mp hnd_rest).1
+  have hdis2 : ∀ a ∈ j :: idsL ds, ∀ b ∈ idsL post, a ≠ b := (List.nodup_append.mp hnd_rest).2.2
+  have hj_ds : j ∉ idsL ds := (List.nodup_cons.mp hnd_c).1
+  have hij : i ≠ j := hi_j
+  have hj_pre : j ∉ idsL pre := fun hm => hdis1 j hm j (by simp) rfl
+  have hj_post : j ∉ idsL post := fun hm => hdis2 j (by simp) j hm rfl
+  have hmem : j ∈ h.ch i := by rw [hchi]; simp [T.id]
+  have hni : i ∉ h.ch j := by
+    rw [hchj]; intro hm; exact hi_ds (map_id_mem_idsL ds i hm)
+  refine ⟨edgeInvert_root h i j hij hpj hpi hmem hni, ?_⟩
+  have hji : j ≠ i := fun e => hij e.symm
+  simp only [Repr]
+  refine ⟨by simp [rotHeap, hji], ?_, ?_⟩
+  · simp [rotHeap, hchj, T.id]
+  · apply reprL_append
+    · apply agreeL h _ (some j) ds _ hrds
+      intro y hy
+      have hyi : y ≠ i := fun e => hi_ds (e ▸ hy)
+      have hyj : y ≠ j := fun e => hj_ds (e ▸ hy)
+      simp [rotHeap, hyi, hyj]
+    · simp only [ReprL, Repr, and_true]
+      refine ⟨by simp [rotHeap], ?_, ?_⟩
+      · have hjp : j ∉ pre.map T.id := fun hm => hj_pre (map_id_mem_idsL pre j hm)
+        simp only [rotHeap, hij, if_false, if_true, hchi, List.map_append, List.map_cons, T.id]
+        exact erase_mid _ _ j hjp
+      · apply reprL_append
+        · apply agreeL h _ (some i) pre _ hsp.1
+          intro y hy
+          have hyi : y ≠ i := fun e => hi_pre (e ▸ hy)
+          have hyj : y ≠ j := fun e => hj_pre (e ▸ hy)
+          simp [rotHeap, hyi, hyj]
+        · apply agreeL h _ (some i) post _ hrpost
+          intro y hy
+          have hyi : y ≠ i := fun e => hi_post (e ▸ hy)
+          have hyj : y ≠ j := fun e => hj_post (e ▸ hy)
+          simp [rotHeap, hyi, hyj]
+
+
+/-! ### the path from the seed down to the target, and the chain of inversions along it -/
+mutual
+/-- ids of the nodes strictly below the root of `t` on the way to `target` (topmost first); `none` if `target` is not in `t` -/
+def pathTo (target : Nat) : T → Option (List Nat)
+  | .node i _ _ _ cs => if i == target then some [] else pathToL target cs
+def pathToL (target : Nat) : List T → Option (List Nat)
+  | [] => none
+  | c :: cs => match pathTo target c with
+    | some π => some (c.id :: π)
+    | none => pathToL target cs
+end
+
+/-- `Edge.invert` along a list of edge heads, as `reseed_at` does it -/
+def chain (h : Heap) (π : List Nat) : Option Heap :=
+  π.foldl (fun hh e => hh.bind fun x => x.edgeInvert e) (some h)
+
+theorem chain_cons (h h1 : Heap) (e : Nat) (π : List Nat) (he : Heap.edgeInvert h e = some h1) :
+    chain h (e :: π) = chain h1 π := by
+  simp [chain, he]
+
+mutual
+theorem go_isSome (target : Nat) (rl : Option Frac) : ∀ (t : T) (acc : List T),
+    (reseedGo target rl acc t).isSome = (pathTo target t).isSome
+  | .node i x l s cs, acc => by
+      simp only [reseedGo, pathTo]
+      split
+      · rfl
+      · exact goL_isSome target rl i x s cs acc []
+theorem goL_isSome (target : Nat) (rl : Option Frac) (i : Nat) (x : Option Nat) (s : Option String) :
+    ∀ (post acc pre : List T), (reseedGoL target rl i x s acc pre post).isSome = (pathToL target post).isSome
+  | [], acc, pre => by simp [reseedGoL, pathToL]
+  | c :: post, acc, pre => by
+      have h1 := go_isSome target rl c [.node i x c.len s (pre ++ post ++ acc)]
+      simp only [reseedGoL, pathToL]
+      cases hg : reseedGo target rl [.node i x c.len s (pre ++ post ++ acc)] c with
+      | some r =>
+        rw [hg] at h1
+        cases hp : pathTo target c with
+        | some π => simp
+        | none => rw [hp] at h1; simp at h1
+      | none =>
+        rw [hg] at h1
+        cases hp : pathTo target c with
+        | some π => rw [hp] at h1; simp at h1
+        | none => simp only; exact goL_isSome target rl i x s post acc (pre ++ [c])
+end
+
+theorem rot_nodup (i : Nat) (x l s) (pre post : List T) (c : T) (l1 l2)
+    (h : (ids (.node i x l s (pre ++ c :: post))).Nodup) :
+    (ids (.node c.id c.taxon l1 c.label (c.cs ++ [.node i x l2 s (pre ++ post)]))).Nodup := by
+  have h' : WF (.node i x l s (pre ++ c :: post)) := h
+  show WF _
+  rw [wf_iff] at h' ⊢
+  intro a
+  have := h' a
+  have hc := cnt_eq a c
+  simp at this ⊢; omega
+
+mutual
+theorem chainB (target : Nat) (rl : Option Frac) : ∀ (t : T) (acc : List T) (h : Heap) (π : List Nat) (r : T),
+    Repr h none (t.withCs (t.cs ++ acc)) → (ids (t.withCs (t.cs ++ acc))).Nodup → pathTo target t = some π →
+    reseedGo target rl acc t = some r → ∃ h', chain h π = some h' ∧ Repr h' none r
+  | .node i x l s cs, acc, h, π, r, hr, hnd, hp, hg => by
+      simp only [T.withCs, T.cs] at hr hnd
+      simp only [pathTo] at hp
+      simp only [reseedGo] at hg
+      split at hg
+      · rename_i e
+        simp only [e, if_true] at hp
+        injection hp with hp; subst hp
+        injection hg with hg; subst hg
+        exact ⟨h, rfl, by simp only [Repr] at hr ⊢; exact hr⟩
+      · rename_i e
+        simp only [e] at hp
+        exact chainBL target rl i x l s cs acc [] h π r (by simpa using hr) (by simpa using hnd) hp hg
+theorem chainBL (target : Nat) (rl : Option Frac) (i : Nat) (x : Option Nat) (l : Option Frac) (s : Option String) :
+    ∀ (post acc pre : List T) (h : Heap) (π : List Nat) (r : T),
+    Repr h none (.node i x l s (pre ++ post ++ acc)) → (ids (.node i x l s (pre ++ post ++ acc))).Nodup →
+    pathToL target post = some π → reseedGoL target rl i x s acc pre post = some r →
+    ∃ h', chain h π = some h' ∧ Repr h' none r
+  | [], acc, pre, h, π, r, _, _, hp, _ => by simp [pathToL] at hp
+  | c :: post, acc, pre, h, π, r, hr, hnd, hp, hg => by
+      have his := go_isSome target rl c [.node i x c.len s (pre ++ post ++ acc)]
+      simp only [pathToL] at hp
+      simp only [reseedGoL] at hg
+      have hassoc : pre ++ (c :: post) ++ acc = pre ++ c :: (post ++ acc) := by simp
+      cases hgo : reseedGo target rl [.node i x c.len s (pre ++ post ++ acc)] c with
+      | some r' =>
+        rw [hgo] at hg his
+        injection hg with hg; subst hg
+        cases hpc : pathTo target c with
+        | none => rw [hpc] at his; simp at his
+        | some π' =>
+          rw [hpc] at hp
+          injection hp with hp; subst hp
+          rw [hassoc] at hr hnd
+          have hrot := rot h i x l s pre (post ++ acc) c hr hnd c.len c.len
+          have hnd' := rot_nodup i x l s pre (post ++ acc) c c.len c.len hnd
+          have hr1 : Repr (rotHeap h i c.id) none (c.withCs (c.cs ++ [.node i x c.len s (pre ++ post ++ acc)])) := by
+            have := hrot.2
+            cases c with
+            | node j a b d e =>
+              simp only [T.withCs, T.cs, T.id, T.taxon, T.label, T.len] at this ⊢
+              rw [List.append_assoc]; simp only [Repr] at this ⊢; exact this
+          have hnd1 : (ids (c.withCs (c.cs ++ [.node i x c.len s (pre ++ post ++ acc)]))).Nodup := by
+            cases c with
+            | node j a b d e =>
+              simp only [T.withCs, T.cs, T.id, T.taxon, T.label, T.len] at hnd' ⊢
+              rw [List.append_assoc]; exact hnd'
+          obtain ⟨h', hc, hrep⟩ := chainB target rl c _ _ π' _ hr1 hnd1 hpc hgo
+          exact ⟨h', by rw [chain_cons h _ c.id π' hrot.1]; exact hc, hrep⟩
+      | none =>
+        rw [hgo] at hg his
+        cases hpc : pathTo target c with
+        | some π' => rw [hpc] at his; simp at his
+        | none =>
+          rw [hpc] at hp
+          simp only at hp hg
+          have hassoc2 : pre ++ [c] ++ post ++ acc = pre ++ (c :: post) ++ acc := by simp
+          exact chainBL target rl i x l s post acc (pre ++ [c]) h π r (by rw [hassoc2]; exact hr)
+            (by rw [hassoc2]; exact hnd) hp hg
+end
+
+
+/-! ### the list of edges `reseed_at` collects by walking up the parent pointers is that path -/
+theorem path_step (h : Heap) (k cur p : Nat) (acc : List Nat) (hp : h.par cur = some p) :
+    Heap.reseedChain.path h (k + 1) cur acc = Heap.reseedChain.path h k p (cur :: acc) := by
+  simp [Heap.reseedChain.path, hp]
+
+theorem path_top (h : Heap) (k cur : Nat) (acc : List Nat) (hp : h.par cur = none) :
+    Heap.reseedChain.path h k cur acc = acc := by
+  cases k <;> simp [Heap.reseedChain.path, hp]
+
+mutual
+theorem path_up (h : Heap) (target : Nat) : ∀ (t : T) (q : Option Nat) (π : List Nat), Repr h q t →
+    pathTo target t = some π → ∀ (k : Nat) (acc : List Nat),
+      Heap.reseedChain.path h (k + π.length) target acc = Heap.reseedChain.path h k t.id (π ++ acc)
+  | .node i x l s cs, q, π, hr, hp, k, acc => by
+      simp only [pathTo] at hp
+      simp only [Repr] at hr
+      split at hp
+      · rename_i e
+        injection hp with hp; subst hp
+        have : i = target := beq_iff_eq.mp e
+        simp [T.id, this]
+      · exact pathL_up h target i cs π hr.2.2 hp k acc
+theorem pathL_up (h : Heap) (target : Nat) (i : Nat) : ∀ (cs : List T) (π : List Nat), ReprL h (some i) cs →
+    pathToL target cs = some π → ∀ (k : Nat) (acc : List Nat),
+      Heap.reseedChain.path h (k + π.length) target acc = Heap.reseedChain.path h k i (π ++ acc)
+  | [], π, _, hp, _, _ => by simp [pathToL] at hp
+  | c :: cs, π, hr, hp, k, acc => by
+      simp only [ReprL] at hr
+      simp only [pathToL] at hp
+      split at hp
+      · rename_i π' hpc
+        injection hp with hp; subst hp
+        have h1 := path_up h target c (some i) π' hr.1 hpc (k + 1) acc
+        have hpar : h.par c.id = some i := by
+          cases c with
+          | node j a b d e => have := hr.1; simp only [Repr] at this; exact this.1
+        rw [path_step h k c.id i _ hpar] at h1
+        simp only [List.length_cons, List.cons_append]
+        rw [← h1]; congr 1; omega
+      · exact pathL_up h target i cs π hr.2 hp k acc
+end
+
+mutual
+theorem pathTo_len (target : Nat) : ∀ (t : T) (π : List Nat), pathTo target t = some π → π.length < t.size
+  | .node i x l s cs, π, hp => by
+      simp only [pathTo] at hp
+      split at hp
+      · injection hp with hp; subst hp; simp [T.size]; omega
+      · have := pathToL_len target cs π hp; simp [T.size]; omega
+theorem pathToL_len (target : Nat) : ∀ (cs : List T) (π : List Nat), pathToL target cs = some π → π.length ≤ T.sizeL cs
+  | [], π, hp => by simp [pathToL] at hp
+  | c :: cs, π, hp => by
+      simp only [pathToL] at hp
+      split at hp
+      · rename_i π' hpc
+        injection hp with hp; subst hp
+        have := pathTo_len target c π' hpc; simp [T.sizeL]; omega
+      · have := pathToL_len target cs π hp; simp [T.sizeL]; omega
+end
+
+mutual
+theorem pathTo_none_cnt (target : Nat) : ∀ t : T, pathTo target t = none → cnt target t = 0
+  | .node i x l s cs, hp => by
+      simp only [pathTo] at hp
+      split at hp
+      · cases hp
+      · rename_i e
+        have : ¬ i = target := by simpa using e
+        simp [this, pathToL_none_cnt target cs hp]
+theorem pathToL_none_cnt (target : Nat) : ∀ cs : List T, pathToL target cs = none → cntL target cs = 0
+  | [], _ => by simp
+  | c :: cs, hp => by
+      simp only [pathToL] at hp
+      split at hp
+      · cases hp
+      · rename_i hpc; simp [pathTo_none_cnt target c hpc, pathToL_none_cnt target cs hp]
+end
+
+mutual
+theorem reseedGo_id (target : Nat) (rl : Option Frac) : ∀ (t : T) (acc : List T) (r : T),
+    reseedGo target rl acc t = some r → r.id = target
+  | .node i x l s cs, acc, r, h => by
+      simp only [reseedGo] at h
+      split at h
+      · rename_i e; injection h with h; subst h; exact beq_iff_eq.mp e
+      · exact reseedGoL_id target rl i x s cs acc [] r h
+theorem reseedGoL_id (target : Nat) (rl : Option Frac) (i : Nat) (x : Option Nat) (s : Option String) :
+    ∀ (post acc pre : List T) (r : T), reseedGoL target rl i x s acc pre post = some r → r.id = target
+  | [], acc, pre, r, h => by simp [reseedGoL] at h
+  | c :: post, acc, pre, r, h => by
+      simp only [reseedGoL] at h
+      split at h
+      · rename_i r' hr; injection h with h; subst h; exact reseedGo_id target rl c _ _ hr
+      · exact reseedGoL_id target rl i x s post acc (pre ++ [c]) r h
+end
+
+end DendroModel.C03.AuxR
+
+
+namespace DendroModel.C03.Aux
+open DendroModel DendroModel.C03
+
+mutual
+theorem dropLeaves_eq_of_size (keep : T → Bool) : ∀ t : T, (dropLeaves keep t).size = t.size → dropLeaves keep t = t
+  | .node i x l s cs, h => by
+      simp only [dropLeaves, T.size] at h
+      simp only [dropLeaves]
+      rw [dropLeavesL_eq_of_size keep cs (by omega)]
+theorem dropLeavesL_eq_of_size (keep : T → Bool) : ∀ cs : List T, T.sizeL (dropLeavesL keep cs) = T.sizeL cs →
+    dropLeavesL keep cs = cs
+  | [], _ => by simp [dropLeavesL]
+  | c :: cs, h => by
+      have h1 := dropLeaves_size keep c; have h2 := dropLeavesL_size keep cs
+      have hp := size_pos c
+      simp only [dropLeavesL] at h ⊢
+      split at h
+      · split at h
+        · simp [sizeL_append, T.sizeL] at h
+          rename_i hc hk
+          have hc' : c.cs = [] := by simpa using hc
+          simp [hk, hc', dropLeavesL_eq_of_size keep cs (by omega)]
+        · simp [sizeL_append, T.sizeL] at h; omega
+      · rename_i hne
+        simp [sizeL_append, T.sizeL] at h
+        simp [hne, dropLeaves_eq_of_size keep c (by omega), dropLeavesL_eq_of_size keep cs (by omega)]
+end
+
+theorem loop_fix (keep : T → Bool) : ∀ (f : Nat) (t r : T), t.size ≤ f → filterLeaves.loop true keep f t = .ok r →
+    dropLeaves keep r = r
+  | 0, t, r, h, _ => by have := size_pos t; omega
+  | f + 1, t, r, h, hl => by
+      simp only [filterLeaves.loop] at hl
+      split at hl
+      · rename_i hleaf
+        split at hl
+        · injection hl with hl; subst hl
+          cases t with
+          | node i x l s cs =>
+            have : cs = [] := by simpa [T.cs] using hleaf
+            subst this; simp [dropLeaves, dropLeavesL]
+        · cases hl
+      · split at hl
+        · rename_i hc
+          injection hl with hl; subst hl
+          have hs : (dropLeaves keep t).size = t.size := by simpa using hc
+          rw [dropLeaves_eq_of_size keep t hs]; exact dropLeaves_eq_of_size keep t hs
+        · rename_i hc
+          have hle := dropLeaves_size keep t
+          have hne : (dropLeaves keep t).size ≠ t.size := by intro e; apply hc; simp [e]
+          exact loop_fix keep f _ r (by omega) hl
+
+/-! `pruneUp`: more fuel than the size of the tree changes nothing -/
+mutual
+theorem splice_size_le (c : Nat) : ∀ t : T, (splice c (fun _ => []) t).size ≤ t.size
+  | .node i x l s cs => by have := spliceL_size_le c cs; simp [splice, T.size]; omega
+theorem spliceL_size_le (c : Nat) : ∀ cs : List T, T.sizeL (spliceL c (fun _ => []) cs) ≤ T.sizeL cs
+  | [] => by simp [spliceL]
+  | x :: xs => by
+      have := splice_size_le c x; have := spliceL_size_le c xs
+      simp only [spliceL]
+      split <;> simp [T.sizeL] <;> omega
+end
+
+theorem any_spliceL_size (c : Nat) : ∀ cs : List T, cs.any (fun x => x.id == c) = true →
+    T.sizeL (spliceL c (fun _ => []) cs) < T.sizeL cs
+  | [], h => by simp at h
+  | x :: xs, h => by
+      have hp := size_pos x
+      simp only [spliceL]
+      split
+      · simp [T.sizeL]; omega
+      · rename_i hx
+        have hx' : (x.id == c) = false := by simpa using hx
+        simp only [List.any_cons, hx', Bool.false_or] at h
+        have := any_spliceL_size c xs h
+        have hle := splice_size_le c x
+        simp [T.sizeL]; omega
+
+mutual
+theorem splice_size_lt (c : Nat) : ∀ (t : T) (q : Nat), parentOf c t = some q → (splice c (fun _ => []) t).size < t.size
+  | .node i x l s cs, q, h => by
+      simp only [parentOf] at h
+      simp only [splice, T.size]
+      split at h
+      · rename_i hany; have := any_spliceL_size c cs hany; omega
+      · have := spliceL_size_lt c cs q h; omega
+theorem spliceL_size_lt (c : Nat) : ∀ (cs : List T) (q : Nat), parentOfL c cs = some q →
+    T.sizeL (spliceL c (fun _ => []) cs) < T.sizeL cs
+  | [], q, h => by simp [parentOfL] at h
+  | x :: xs, q, h => by
+      have hp := size_pos x
+      simp only [parentOfL] at h
+      simp only [spliceL]
+      split
+      · simp [T.sizeL]; omega
+      · split at h
+        · rename_i r hr
+          have := splice_size_lt c x r hr; have := spliceL_size_le c xs
+          simp [T.sizeL]; omega
+        · have := spliceL_size_lt c xs q h; have := splice_size_le c x
+          simp [T.sizeL]; omega
+end
+
+theorem pruneUp_fuel : ∀ (f g c : Nat) (t : T), t.size ≤ f → t.size ≤ g → pruneUp f c t = pruneUp g c t
+  | 0, g, c, t, h, _ => by have := size_pos t; omega
+  | f + 1, 0, c, t, _, h => by have := size_pos t; omega
+  | f + 1, g + 1, c, t, hf, hg => by
+      simp only [pruneUp]
+      split
+      · rfl
+      · rename_i q hq
+        have hlt := splice_size_lt c t q hq
+        split
+        · split
+          · exact pruneUp_fuel f g q _ (by omega) (by omega)
+          · rfl
+        · rfl
+
+end DendroModel.C03.Aux
+
+
 namespace DendroModel.C03
-open DendroModel DendroModel.C03.Aux
+open DendroModel DendroModel.C03.Aux DendroModel.C03.AuxR
 
 /-- subtrees handed to `add_child` / `insert_child` are themselves free of shared nodes
 (their ids are renamed apart from the tree's by `step`) -/
@@ -3664,5 +4119,162 @@ example : Leaves.lc (0, 7) exInnerTaxon = 0 ∧
 example : ((step { t := exTree, rooted := none } (.newChild 4 (some 9) none)).toOption.map
     (fun s' => (Leaves.lc (7, 9) s'.t, decide (maxId exTree < 7)))) = some (1, true) := by decide
 
+
+/-- **The edge-inversion chain of `reseed_at` at pointer level.**  On the heap of any tree without shared nodes, for
+any target node of the tree: the routine as written — collect the edges by walking up the parent pointers, `Edge.invert`
+them from the seed downwards, clear the new seed's parent — does not fail, and the resulting pointer structure
+represents exactly the tree-level result of `reseed_at` before its clean-up (`reseedCore target false`): the target is
+the parentless root, every node's parent pointer and child list are those of that tree. -/
+theorem reseedChain_refines (t : T) (target : Nat) (hw : WF t) (ht : target ∈ ids t) :
+    ∃ h', Heap.reseedChain (Heap.ofTree none Heap.empty t) (t.size + 2) target = some h' ∧
+      Repr h' none (reseedCore target false t) := by
+  have hrep := ofTree_repr t hw
+  generalize Heap.ofTree none Heap.empty t = h at hrep
+  have hcnt : 1 ≤ cnt target t := by
+    have : cnt target t ≠ 0 := by
+      intro e; exact (List.count_eq_zero.mp e) ht
+    omega
+  -- the path exists
+  cases hp : pathTo target t with
+  | none => have := pathTo_none_cnt target t hp; omega
+  | some π =>
+    have hlen := pathTo_len target t π hp
+    -- what the upward walk collects
+    have hpath : Heap.reseedChain.path h (t.size + 2) target [] = π := by
+      have hk : t.size + 2 = (t.size + 2 - π.length) + π.length := by omega
+      rw [hk, path_up h target t none π hrep hp]
+      have hroot : h.par t.id = none := by
+        cases t with
+        | node i x l s cs => simp only [Repr] at hrep; exact hrep.1
+      rw [path_top h _ t.id _ hroot]; simp
+    -- the tree-level result
+    have hsome : (reseedGo target t.len [] t).isSome = true := by rw [go_isSome, hp]; rfl
+    cases hgo : reseedGo target t.len [] t with
+    | none => rw [hgo] at hsome; simp at hsome
+    | some r =>
+      have hr0 : Repr h none (t.withCs (t.cs ++ [])) := by cases t; simpa [T.withCs, T.cs] using hrep
+      have hnd0 : (ids (t.withCs (t.cs ++ []))).Nodup := by
+        have hw' : (ids t).Nodup := hw
+        cases t; simpa [T.withCs, T.cs] using hw'
+      obtain ⟨h', hc, hrr⟩ := chainB target t.len t [] h π r hr0 hnd0 hp hgo
+      have hrid := reseedGo_id target t.len t [] r hgo
+      have hpar : h'.par target = none := by
+        cases r with
+        | node i x l s cs => simp only [T.id] at hrid; subst hrid; simp only [Repr] at hrr; exact hrr.1
+      have hset : Repr (h'.setPar target none) none r := by
+        apply HeapAux.agree h' _ none r _ hrr
+        intro y _
+        by_cases e : y = target
+        · subst e; simp [Heap.setPar, hpar]
+        · simp [Heap.setPar, e]
+      refine ⟨h'.setPar target none, ?_, ?_⟩
+      · simp only [Heap.reseedChain, hpath]
+        have : List.foldl (fun hh e => hh.bind fun x => x.edgeInvert e) (some h) π = some h' := hc
+        rw [this]; rfl
+      · -- `reseedCore target false t` is `r` (or `t` itself when the target is the seed, and then `r` is `t` up to lengths)
+        unfold reseedCore
+        split
+        · rename_i e
+          cases t with
+          | node i x l s cs =>
+            have hit : i = target := by simpa [T.id] using e
+            subst hit
+            simp only [reseedGo, beq_self_eq_true, if_true, List.append_nil] at hgo
+            injection hgo with hgo; subst hgo
+            simp only [Repr] at hset ⊢; exact hset
+        · cases hf : T.find? target t with
+          | none => have := find_none_cnt target t hf; omega
+          | some n => simp [hgo]; exact hset
+
+
+/-- the same for `reseed_at(…, collapse_unrooted_basal_bifurcation=False, suppress_unifurcations=False)` as a whole.
+PARTIAL: with the clean-up flags switched on, `reseed_at` goes on with `collapse_basal_bifurcation` / `suppress_unifurcations`,
+whose pointer-level versions (sequences of `remove_child` / `insert_child` of EXISTING nodes) are not in the heap model;
+the tree-level effect of the clean-up is covered by `step_wf` / `step_keeps_leaves` and the per-step correspondence. -/
+theorem reseedAt_refines_partial (s : St) (target : Nat) (hw : WF s.t) (ht : target ∈ ids s.t) :
+    ∃ h', Heap.reseedChain (Heap.ofTree none Heap.empty s.t) (s.t.size + 2) target = some h' ∧
+      Repr h' none (reseedAt target false false s).t := by
+  have := reseedChain_refines s.t target hw ht
+  simpa [reseedAt, encodeStruct] using this
+
+/-- non-vacuity: re-seeding ((A,B),(C,D)) at leaf C — two inversions; afterwards C (5) is the parentless root with the
+single child 4, which lists D (6) and then the old seed 0 -/
+example : 5 ∈ ids exTree ∧ (Heap.reseedChain (Heap.ofTree none Heap.empty exTree) (exTree.size + 2) 5).map
+    (fun h => (h.par 5, h.ch 5, h.par 4, h.ch 4, h.par 0, h.ch 0)) = some (none, [4], some 5, [6, 0], some 4, [1]) :=
+  ⟨by decide, by rfl⟩
+
+
+/-- `filter_leaf_nodes(recursive=True)`: with the fuel the model gives the loop (size of the tree + 1) it has run to its
+end — another pass over the result removes nothing, i.e. every leaf left (other than the seed) is accepted by the filter -/
+theorem filterLoop_fixpoint (keep : T → Bool) (t r : T) (h : filterLeaves.loop true keep (t.size + 1) t = .ok r) :
+    dropLeaves keep r = r :=
+  loop_fix keep (t.size + 1) t r (by omega) h
+
+/-- `prune_subtree`'s climb over emptied ancestors: the fuel the model gives it (size of the tree) suffices — any larger
+amount of fuel yields the same tree, so the bounded recursion is the unbounded `while` loop -/
+theorem pruneUp_fuel_suffices (c extra : Nat) (t : T) : pruneUp (t.size + extra) c t = pruneUp t.size c t :=
+  pruneUp_fuel _ _ c t (by omega) (Nat.le_refl _)
+
+
+/-- non-vacuity: a filter that rejects A, B and (once it is a leaf) their parent 1 needs three passes on `exTree`; the
+loop with the model's fuel reaches the fixpoint; and the climb of `prune_subtree` really climbs (removing leaf 2 of
+((A)x,(C,D)) also removes the emptied x) -/
+example : (filterLeaves.loop true (fun c => [0, 4, 5, 6].contains c.id) (exTree.size + 1) exTree).toOption.map T.size
+    = some 4 := by decide
+example : (pruneUp 5 2 (.node 0 none none none [.node 1 none none none [.node 2 (some 0) none none []],
+    .node 4 none none none [.node 5 (some 2) none none [], .node 6 (some 3) none none []]])).size = 4 := by decide
+
+
+/-- `Node.add_child(node)` at pointer level where `node` is the root of a DETACHED SUBTREE `w` (a subtree removed
+earlier, as in `addsub`): the heap represents the tree `t` and, separately, the parentless `w`; the two share no node;
+`p` is not inside `w`.  Then the resulting heap represents the tree-level `addChild p w t`: `w` hangs as the last child
+of `p`, its interior untouched. -/
+theorem addChild_subtree_repr (h : Heap) (t w : T) (p : Nat) (hr : Repr h none t) (hrw : Repr h none w) (hw : WF t)
+    (hww : WF w) (hdis : ∀ y ∈ ids w, y ∉ ids t) (hpw : p ∉ ids w) (hnot : w.id ∉ h.ch p) :
+    Repr (Heap.addChild h p w.id) none (addChild p w t) := by
+  cases w with
+  | node k x l s cs =>
+  simp only [T.id] at hnot ⊢
+  have hww' : (ids (T.node k x l s cs)).Nodup := hww
+  simp only [ids, List.nodup_cons] at hww'
+  simp only [ids, List.mem_cons, not_or] at hpw
+  have hk : k ∉ ids t := hdis k (by simp [ids])
+  have hkp : k ≠ p := fun e => hpw.1 e.symm
+  have hpar : ∀ y, y ≠ k → (Heap.addChild h p k).par y = h.par y := by
+    intro y hy; simp [Heap.addChild, hnot, Heap.setPar, Heap.setCh, hy]
+  have hch : ∀ y, y ≠ p → (Heap.addChild h p k).ch y = h.ch y := by
+    intro y hy; simp [Heap.addChild, hnot, Heap.setPar, Heap.setCh, hy]
+  have hw' : Repr (Heap.addChild h p k) (some p) (.node k x l s cs) := by
+    simp only [Repr] at hrw ⊢
+    refine ⟨by simp [Heap.addChild, hnot, Heap.setPar, Heap.setCh], by rw [hch k hkp]; exact hrw.2.1, ?_⟩
+    apply HeapAux.agreeL h _ (some k) cs _ hrw.2.2
+    intro y hy
+    have hyk : y ≠ k := fun e => hww'.1 (e ▸ hy)
+    have hyp : y ≠ p := fun e => hpw.2 (e ▸ hy)
+    exact ⟨hpar y hyk, hch y hyp⟩
+  unfold addChild
+  exact HeapAux.attachSub_repr h _ p k (.node k x l s cs) (fun cs' => cs' ++ [.node k x l s cs]) rfl hw'
+    (fun y hy => hpar y hy) (fun y hy _ => hch y hy)
+    (by intro cs' hcs
+        have e : (Heap.addChild h p k).ch p = h.ch p ++ [k] := by simp [Heap.addChild, hnot, Heap.setPar, Heap.setCh]
+        rw [e, hcs]; simp [T.id])
+    (by intro hh q cs' h1 h2
+        exact HeapAux.reprL_append hh q cs' _ h1 (by simp only [ReprL]; exact ⟨h2, trivial⟩))
+    none t hr hw hk
+
+
+/-- non-vacuity of `addChild_subtree_repr`: one heap holding the tree (0 (1)) and, detached, the subtree (4 (5) (6)) -/
+example : let t : T := .node 0 none none none [.node 1 (some 0) none none []]
+    let w : T := .node 4 none none none [.node 5 (some 2) none none [], .node 6 (some 3) none none []]
+    let h := Heap.ofTree none (Heap.ofTree none Heap.empty t) w
+    Repr h none t ∧ Repr h none w ∧ WF t ∧ WF w ∧ (∀ y ∈ ids w, y ∉ ids t) ∧ 1 ∉ ids w ∧ w.id ∉ h.ch 1 ∧
+      (Heap.addChild h 1 w.id).ch 1 = [4] := by
+  intro t w h
+  have hwt : WF t := by unfold WF; decide
+  have hww : WF w := by unfold WF; decide
+  refine ⟨?_, HeapAux.ofTree_repr_aux w none _ hww, hwt, hww, by decide, by decide, by decide, by decide⟩
+  apply HeapAux.agree (Heap.ofTree none Heap.empty t) h none t _ (ofTree_repr t hwt)
+  intro y hy
+  exact HeapAux.ofTree_outside w none _ y (by revert hy; revert y; decide)
 
 end DendroModel.C03
